@@ -1,9 +1,43 @@
 """C03 — a variable always holds a value of its declared type."""
+import os
+import vlib
 from checks import st_common
+
+
+def tag_sweep(tier):
+    """feature sweep (harness/src/bin/stsweep.rs): after every completed cycle the stored tag of the program's scalar variables
+    (integer kinds, BOOL, REAL, bit strings, strings, enums, time and date types) must be the declared one - results of
+    functions, methods, FB outputs, conversions and standard functions included"""
+    binary = vlib.cargo_build("stsweep")
+    n = 1500 if tier == "quick" else 30000
+    out = os.path.join(vlib.CACHE, "c03_sweep.out"); srcdir = os.path.join(vlib.CACHE, "c03_sweep_src")
+    env = vlib.env_base(); env["VERIF_KEEP_ALL_SRC"] = "1"
+    rc, o = vlib.run([binary, str(n), out, srcdir], timeout=3000, env=env)
+    if rc != 0:
+        raise vlib.CheckError("stsweep failed: " + o[-1000:])
+    bad, cycles, accepted = [], 0, 0
+    for line in open(out):
+        parts = [x.strip() for x in line.split(" : ", 2)]
+        if len(parts) < 3: continue
+        toks = parts[2].split()
+        if toks and not toks[0].startswith("REJECT"): accepted += 1
+        cycles += sum(1 for t in toks if t.startswith("ok#"))
+        if any(t.startswith("T:") for t in toks): bad.append(parts)
+    cov = {"programs": n, "accepted": accepted, "completed_cycles_with_all_scalar_tags_checked": cycles, "violations": len(bad),
+           "note": "testing, not proof: these features are outside Model/StCore.v; typed literals only, so the recorded finding assign-uncoerced is not in play"}
+    if bad:
+        pid, pm, po = bad[0]
+        src = open(os.path.join(srcdir, pid + ".st")).read()
+        tok = [t for t in po.split() if t.startswith("T:")][0]
+        return True, "after a completed cycle variable %s holds a value tagged %s, not its declared type (program %s using %s, seed %d)" % (tok[2:].split("=")[0], tok.split("=")[1], pid, pm, vlib.seed()), src, cov
+    return False, "", "", cov
+tag_sweep.wants_tier = True
+
 
 def check(tier):
     return st_common.run("C03", tier, "J03", "a variable holds a value whose runtime type tag or range differs from its declaration",
-                         "assign-uncoerced", "assignment stores the evaluated value with the type tag it was computed with", "C03")
+                         "assign-uncoerced", "assignment stores the evaluated value with the type tag it was computed with", "C03",
+                         probes=[("feature-sweep-tags", tag_sweep)])
 
 def replay(path):
     return st_common.replay("C03", path)
